@@ -20,6 +20,8 @@ FASTQ = "".join(f"@r{i}\nACGTACGTAC\n+\nIIIIIIIIII\n" for i in range(4))
 FASTA = "".join(f">r{i}\nACGTACGTAC\n" for i in range(4))
 
 
+OUTPUT = "OutFormat.lean"      # the generated file (harness/core.py: a failure of this translator concerns the properties that import it)
+
 def _read(path):
     raw = open(path, "rb").read()
     # by content, not by name: whether a name makes the writer compress is the library's business (xopen), the format is cutadapt's
